@@ -277,6 +277,11 @@ def prove(built, fn, verbose=False, trace=False, keep=False, case=None, extra_de
                                   'clause': cl['text'] if cl else None, 'spec': cl['src'] if cl else None,
                                   'file': p.get('sourceLocation', {}).get('file')})
     res['time_s'] = round(time.time() - t0, 2)
+    if unknown and res['failed']:
+        # obligations with a counterexample are failures whatever else the solver left open (the open ones are not counted as proved)
+        res['status'] = 'failed'; res['reason'] = '%d further obligations were left undecided (status UNKNOWN) by cbmc' % unknown
+        res['unknown'] = unknown
+        return res
     if unknown:
         res['status'] = 'undecided'; res['reason'] = '%d obligations were left undecided (status UNKNOWN) by cbmc%s' % (unknown, '; %d failed: %s' % (len(res['failed']), res['failed'][0]['description'][:120]) if res['failed'] else '')
         return res
